@@ -6,6 +6,7 @@ CONSTANTS
   TrigSets = {{}}
   MaxNow = 0
   MaxStores = 0
+  Shared = FALSE
 INVARIANTS NeverStale LiveIsFound HeldNotDead NoLimitKeepsAll Bound OrderInv
 PROPERTIES EvictRule OnlyStoreEvicts
 POSTCONDITION TraceDone
